@@ -36,6 +36,7 @@ def shards(tier, seed):
                 out.append({'name': 'sweep-k%d-%s-des%d' % (kf, mode, at_des), 'kind': 'sweep', 'kf': kf, 'mode': mode, 'at_des': at_des, 'cost': 10 * (at_des + 1)})
     out.append({'name': 'prims', 'kind': 'prims', 'cost': 5})
     out.append({'name': 'errors', 'kind': 'errors', 'cost': 1})
+    out.append({'name': 'layouts', 'kind': 'layouts', 'cost': 6})
     return out
 
 
@@ -60,6 +61,8 @@ def run_shard(shard, ctx):
         _sweep(shard, ctx, col, des, R, np)
     elif shard['kind'] == 'prims':
         _prims(col, des, R, np)
+    elif shard['kind'] == 'layouts':
+        _layouts(ctx, col, des, np)
     else:
         _errors(col, des, np)
     if _templates_digest(des) != t0:
@@ -232,3 +235,41 @@ def _errors(col, des, np):
             col.violation('C06/out-of-domain-accepted', 'encrypt accepted %r for single DES' % kw, kw)
         except (ValueError, TypeError):
             pass
+
+
+def _layouts(ctx, col, des, np):
+    """Memory layout / integer dtype of the block and key arrays is not part of their value: for every key form (master and pre-expanded, several
+    keys paired with several blocks) Fortran-ordered, strided, reversed and int64 arrays must give what their C-contiguous uint8 copy gives
+    (those results are pinned against FIPS 46-3 by the sweeps)."""
+    from mc.common import rng_for
+    rng = rng_for(ctx['seed'], 'c06-layouts')
+    n = 6
+    blocks = rng.randint(0, 256, (n, 8)).astype(np.uint8)
+    for kf in KEYFORMS:
+        if kf in (8, 16, 24):
+            keys = rng.randint(0, 256, (n, kf)).astype(np.uint8)
+        else:
+            masters = rng.randint(0, 256, (n, kf // 16)).astype(np.uint8)
+            keys = np.stack([np.concatenate([des.key_schedule(m[8 * p:8 * p + 8]).reshape(-1) for p in range(kf // 128)]) for m in masters]).astype(np.uint8)
+        for mode in ('enc', 'dec'):
+            f = des.encrypt if mode == 'enc' else des.decrypt
+            stops = [dict(), dict(at_round=0, after_step=3), dict(at_round=7, after_step=5), dict(at_round=15, after_step=8)]
+            if kf not in (8, 128): stops += [dict(at_des=1, at_round=3, after_step=2), dict(at_des=0)]
+            for kw in stops:
+                try:
+                    ref = f(blocks, keys, **kw)
+                except Exception as e:
+                    col.violation('C06/layout/raised', 'key form %d %s %s on contiguous arrays: %s: %s' % (kf, mode, kw, type(e).__name__, e), {'kf': kf, 'mode': mode, 'stop': kw}); continue
+                wb = np.zeros((2 * n, 16), np.uint8); wk = np.zeros((2 * n, 2 * keys.shape[1]), np.uint8); wb[::2, ::2] = blocks; wk[::2, ::2] = keys
+                views = {'fortran': (np.asfortranarray(blocks), np.asfortranarray(keys), ref), 'strided': (wb[::2, ::2], wk[::2, ::2], ref), 'reversed': (blocks[::-1], keys[::-1], ref[::-1]),
+                         'int64': (blocks.astype('int64'), keys.astype('int64'), ref)}
+                for vn, (b, k, exp) in views.items():
+                    col.evaluations += 1; col.states += 1; col.transitions += 1; col.nontrivial += 1
+                    case = {'view': vn, 'kf': kf, 'mode': mode, 'stop': kw}
+                    try:
+                        got = f(b, k, **kw)
+                    except Exception as e:
+                        col.violation('C06/layout/raised', 'key form %d %s %s on %s arrays: %s: %s' % (kf, mode, kw, vn, type(e).__name__, e), case); continue
+                    if np.asarray(got).shape != np.asarray(exp).shape or not np.array_equal(got, exp):
+                        col.violation('C06/layout', 'key form %d bytes, %s at %s: result on %s block/key arrays differs from the result on their C-contiguous uint8 copies' % (kf, mode, kw or 'end', vn), case)
+    col.sample({'check': 'memory layouts', 'key_forms': list(KEYFORMS), 'views': ['fortran', 'strided', 'reversed', 'int64']}, limit=1)
